@@ -358,6 +358,7 @@ pub fn run_controlled(threads: &[Vec<Call>], seed: u64, preempts: &[Preempt]) ->
     let first = Xo::derive(seed, &[0xF125]).below(n as u64) as u32;
     let mut outs: Vec<Vec<Out>> = (0..n).map(|i| Vec::with_capacity(threads[i].len())).collect();
     let mut events = vec![0u64; n];
+    let slot = crate::rec::worker_slot();
     std::thread::scope(|sc| {
         let mut hs = vec![];
         for (i, (calls, out)) in threads.iter().take(n).zip(outs.iter_mut()).enumerate() {
@@ -371,6 +372,7 @@ pub fn run_controlled(threads: &[Vec<Call>], seed: u64, preempts: &[Preempt]) ->
                     .stack_size(8 << 20)
                     .spawn_scoped(sc, move || {
                         let _ = std::collections::hash_map::RandomState::new();
+                        crate::rec::set_worker_slot(slot);
                         MY_ID.with(|c| c.set(i as u32));
                         EVENTS.with(|c| c.set(0));
                         PREEMPTS.with(|p| *p.borrow_mut() = mine);
@@ -406,12 +408,14 @@ pub fn run_controlled(threads: &[Vec<Call>], seed: u64, preempts: &[Preempt]) ->
 pub fn run_free(threads: &[Vec<Call>], seed: u64, reps: usize) -> Vec<Vec<Out>> {
     let n = threads.len();
     let barrier = std::sync::Barrier::new(n);
+    let slot = crate::rec::worker_slot();
     let mut outs: Vec<Vec<Out>> = (0..n).map(|i| Vec::with_capacity(threads[i].len() * reps)).collect();
     std::thread::scope(|sc| {
         for (i, (calls, out)) in threads.iter().zip(outs.iter_mut()).enumerate() {
             let b = &barrier;
             sc.spawn(move || {
                 let _ = std::collections::hash_map::RandomState::new();
+                crate::rec::set_worker_slot(slot);
                 b.wait();
                 for r in 0..reps {
                     run_calls(calls, out, Xo::derive(seed, &[0xF4EE, i as u64, r as u64]));
@@ -447,8 +451,10 @@ pub fn run_at_thread_exit(calls: Vec<Call>, k: usize, early: bool, seed: u64) ->
     let n = calls.len();
     let k = k.min(n);
     let (tx, rx) = std::sync::mpsc::channel::<(usize, Out)>();
+    let slot = crate::rec::worker_slot();
     let h = std::thread::Builder::new().name("caller-exit".into()).stack_size(8 << 20).spawn(move || {
         let _ = std::collections::hash_map::RandomState::new();
+        crate::rec::set_worker_slot(slot);
         if early {
             AT_EXIT_EARLY.with(|c| c.borrow_mut().0 = None); // registers the destructor now, before any library call
         }
